@@ -56,6 +56,7 @@ Inductive behaviour :=
 Record cfg := {
   c_read_to : bool;                 (* ReadTimeout != 0 *)
   c_write_to : bool;                (* WriteTimeout != 0 *)
+  c_tls : option bool;              (* None: not a *tls.Conn; Some ok: TLS, the handshake succeeds / fails *)
   c_sess_auth : option bool;        (* None: no SessionAuthHandler; Some ok: it returns ok / an error *)
   c_req_auth : bool;                (* RequestAuthHandler configured *)
   c_ops : list N;                   (* operations with a (scripted) handler registered through Handle *)
@@ -69,6 +70,7 @@ Inductive close_kind := CloseEOF | CloseError.
 
 Inductive event :=
 | EArmRead | EArmWrite
+| EHandshake (ok : bool)
 | ESessAuth (ok : bool)
 | EReqAuth (creds : val) (ok : bool)
 | ECall (sid sauth : bytes) (rauth : option bytes) (op : N) (payload : val)
@@ -247,11 +249,21 @@ Section Session.
                end
     end.
 
-  (* serve() on a non-TLS connection (the TLS handshake part is modelled in TLS.v) *)
-  Definition session (c : cfg) (input : bytes) (script : list behaviour) : list event :=
+  (* serve() after the handshake *)
+  Definition session_body (c : cfg) (input : bytes) (script : list behaviour) : list event :=
     match c_sess_auth c with
     | Some false => [ESessAuth false; EClose CloseError]
     | Some true => ESessAuth true :: serve_loop (S (List.length input)) c {| rest := input; last := 0 |} script
     | None => serve_loop (S (List.length input)) c {| rest := input; last := 0 |} script
+    end.
+
+  (* serve(): on a *tls.Conn both deadlines are armed (iff configured) before the handshake; a failed
+     handshake ends the session before any callback *)
+  Definition session (c : cfg) (input : bytes) (script : list behaviour) : list event :=
+    match c_tls c with
+    | None => session_body c input script
+    | Some ok =>
+        (if c_read_to c then [EArmRead] else []) ++ (if c_write_to c then [EArmWrite] else []) ++
+        EHandshake ok :: (if ok then session_body c input script else [EClose CloseError])
     end.
 End Session.
